@@ -129,6 +129,7 @@ func (f *frame) beforeCall(key string, args []Val, st *State, pos token.Pos) {
 	env.lookup = f.localsAt(f.curBlock)
 	env.sset = f.sset
 	env.frame = f
+	env.callResults = f.callResults
 	for i, a := range args {
 		env.vars[fmt.Sprintf("$%d", i)] = a
 	}
